@@ -338,79 +338,111 @@ func cmdVerify(argv []string) {
 	outs := make([]*OblOut, len(jobs))
 	var wg sync.WaitGroup
 	sem := make(chan struct{}, 10)
+	// decide solves one obligation with the given timeout (all fallbacks included).
+	decide := func(i int, j job, tmo int, suffix string) *OblOut {
+		fname := fmt.Sprintf("%04d_%s", i, sanitize(j.o.Name)) + suffix
+		if skipSet[j.o.Name] {
+			return &OblOut{Name: j.o.Name, Kind: j.o.Kind, Func: j.o.Func, Pos: j.o.Pos, Text: j.o.Text, Status: "undecided", Answer: "skipped", Backend: "smt"}
+		}
+		if j.o.Kind == "vacuity" && tmo > 5000 {
+			// a contradiction among the assumptions is found quickly or not at all
+			tmo = 5000
+		}
+		r := Solve(j.script, *smtdir, fname, tmo, *tier == "thorough" && j.o.Kind != "vacuity")
+		if r.Status != "unsat" && r.Status != "sat" && j.lite != "" {
+			// retry without quantified facts: fewer assumptions, so only "unsat" is meaningful
+			r2 := Solve(j.lite, *smtdir, fname+"_lite", tmo, false)
+			if r2.Status == "unsat" {
+				r2.Solver += "(qf-facts)"
+				r2.Seconds += r.Seconds
+				r = r2
+			} else if j.cone != "" {
+				r3 := Solve(j.cone, *smtdir, fname+"_cone", tmo, false)
+				if r3.Status == "unsat" {
+					r3.Solver += "(cone)"
+					r3.Seconds += r.Seconds
+					r = r3
+				}
+			}
+		}
+		if r.Status != "unsat" && r.Status != "sat" && j.o.Kind != "vacuity" {
+			// last resort: other random seeds (accepted only when they refute the negated goal)
+			t := tmo
+			if t > 5000 {
+				t = 5000
+			}
+			if r4 := SolveSeeded(j.script, *smtdir, fname, t); r4.Status == "unsat" {
+				r4.Seconds += r.Seconds
+				r = r4
+			}
+		}
+		oo := &OblOut{Name: j.o.Name, Kind: j.o.Kind, Func: j.o.Func, Pos: j.o.Pos, Text: j.o.Text, Answer: r.Status, Solver: r.Solver,
+			Seconds: r.Seconds, Backend: "smt", SMTFile: filepath.Join(*smtdir, fname+".smt2"), BySolver: r.ByName}
+		switch {
+		case j.o.Kind == "vacuity":
+			// expected sat (or undecided); unsat means the assumptions are contradictory
+			if r.Status == "unsat" {
+				oo.Status = "failed"
+				oo.Output = "assumptions are contradictory: every obligation of this function would hold vacuously"
+			} else {
+				oo.Status = "discharged"
+			}
+		case r.Status == "unsat" && disagree(r.ByName):
+			// thorough tier: every solver ran to completion and they contradict each other
+			oo.Status = "undecided"
+			oo.Output = fmt.Sprintf("solvers disagree: %v", r.ByName)
+		case r.Status == "unsat":
+			oo.Status = "discharged"
+		case r.Status == "sat":
+			oo.Status = "failed"
+			oo.Model = r.Values
+			oo.Output = trunc(r.Output, 4000)
+		default:
+			oo.Status = "undecided"
+			oo.Output = trunc(r.Output, 2000)
+		}
+		return oo
+	}
 	for i, j := range jobs {
 		wg.Add(1)
 		go func(i int, j job) {
 			defer wg.Done()
 			sem <- struct{}{}
 			defer func() { <-sem }()
-			fname := fmt.Sprintf("%04d_%s", i, sanitize(j.o.Name))
-			if skipSet[j.o.Name] {
-				outs[i] = &OblOut{Name: j.o.Name, Kind: j.o.Kind, Func: j.o.Func, Pos: j.o.Pos, Text: j.o.Text, Status: "undecided", Answer: "skipped", Backend: "smt"}
-				return
-			}
-			tmo := *timeout
-			if j.o.Kind == "vacuity" && tmo > 5000 {
-				// a contradiction among the assumptions is found quickly or not at all
-				tmo = 5000
-			}
-			r := Solve(j.script, *smtdir, fname, tmo, *tier == "thorough" && j.o.Kind != "vacuity")
-			if r.Status != "unsat" && r.Status != "sat" && j.lite != "" {
-				// retry without quantified facts: fewer assumptions, so only "unsat" is meaningful
-				r2 := Solve(j.lite, *smtdir, fname+"_lite", *timeout, false)
-				if r2.Status == "unsat" {
-					r2.Solver += "(qf-facts)"
-					r2.Seconds += r.Seconds
-					r = r2
-				} else if j.cone != "" {
-					r3 := Solve(j.cone, *smtdir, fname+"_cone", *timeout, false)
-					if r3.Status == "unsat" {
-						r3.Solver += "(cone)"
-						r3.Seconds += r.Seconds
-						r = r3
-					}
-				}
-			}
-			if r.Status != "unsat" && r.Status != "sat" && j.o.Kind != "vacuity" {
-				// last resort: other random seeds (accepted only when they refute the negated goal)
-				t := *timeout
-				if t > 5000 {
-					t = 5000
-				}
-				if r4 := SolveSeeded(j.script, *smtdir, fname, t); r4.Status == "unsat" {
-					r4.Seconds += r.Seconds
-					r = r4
-				}
-			}
-			oo := &OblOut{Name: j.o.Name, Kind: j.o.Kind, Func: j.o.Func, Pos: j.o.Pos, Text: j.o.Text, Answer: r.Status, Solver: r.Solver,
-				Seconds: r.Seconds, Backend: "smt", SMTFile: filepath.Join(*smtdir, fname+".smt2"), BySolver: r.ByName}
-			switch {
-			case j.o.Kind == "vacuity":
-				// expected sat (or undecided); unsat means the assumptions are contradictory
-				if r.Status == "unsat" {
-					oo.Status = "failed"
-					oo.Output = "assumptions are contradictory: every obligation of this function would hold vacuously"
-				} else {
-					oo.Status = "discharged"
-				}
-			case r.Status == "unsat" && disagree(r.ByName):
-				// thorough tier: every solver ran to completion and they contradict each other
-				oo.Status = "undecided"
-				oo.Output = fmt.Sprintf("solvers disagree: %v", r.ByName)
-			case r.Status == "unsat":
-				oo.Status = "discharged"
-			case r.Status == "sat":
-				oo.Status = "failed"
-				oo.Model = r.Values
-				oo.Output = trunc(r.Output, 4000)
-			default:
-				oo.Status = "undecided"
-				oo.Output = trunc(r.Output, 2000)
-			}
-			outs[i] = oo
+			outs[i] = decide(i, j, *timeout, "")
 		}(i, j)
 	}
 	wg.Wait()
+	// Second pass: an obligation that no solver decided within the timeout is tried again, a few
+	// at a time and with four times the timeout, once the other queries of this run are out of the
+	// way. A timeout under load is thereby not reported as an undischarged obligation; "sat"
+	// (a refutation) and "unsat" of the first pass stand.
+	{
+		sem2 := make(chan struct{}, 3)
+		for i, j := range jobs {
+			oo := outs[i]
+			if oo == nil || oo.Status != "undecided" || oo.Answer == "skipped" || j.o.Kind == "vacuity" || strings.HasPrefix(oo.Output, "solvers disagree") {
+				continue
+			}
+			wg.Add(1)
+			go func(i int, j job, first *OblOut) {
+				defer wg.Done()
+				sem2 <- struct{}{}
+				defer func() { <-sem2 }()
+				t := *timeout * 4
+				if t > 120000 {
+					t = 120000
+				}
+				again := decide(i, j, t, "_retry")
+				again.Seconds += first.Seconds
+				if again.Status != "undecided" {
+					again.Solver += " (second pass)"
+				}
+				outs[i] = again
+			}(i, j, oo)
+		}
+		wg.Wait()
+	}
 	res.SolveS = time.Since(t1).Seconds()
 	// parts of a split check are reported as one obligation: discharged iff every part is
 	{
@@ -549,7 +581,6 @@ func fatal(res *Output, out string, f string, a ...any) {
 	os.Exit(3)
 }
 
-
 var quantMemo = map[int]bool{}
 
 var ufMemo = map[string]map[int]bool{}
@@ -616,7 +647,6 @@ func hasQuantifier(t *Term) bool {
 	quantMemo[t.id] = r
 	return r
 }
-
 
 // coneOf keeps the goal (last assert) and the facts reachable from it through shared symbols;
 // quantifier-free facts are always kept, quantified ones only when connected. Fewer assumptions,
